@@ -537,6 +537,8 @@ class LibMixin:
                 return z3.Empty(SeqU)
             units = [z3.Unit(box(x)) for x in h.items]
             return units[0] if len(units) == 1 else z3.Concat(*units)
+        if h.tail:
+            return z3.Concat(h.seq, *[z3.Unit(box(x)) for x in h.tail])
         return h.seq
 
     def as_seq(self, st, v):
@@ -587,12 +589,14 @@ class LibMixin:
         if isinstance(obj, VRef):
             h = st.deref(obj)
             if isinstance(h, HList):
+                ok, k = concrete(key)
                 if h.items is not None:
-                    ok, k = concrete(key)
                     if ok and isinstance(k, int):
                         if -len(h.items) <= k < len(h.items):
                             return [(st, h.items[k])]
                         return [self.raised(st, "IndexError", "list index out of range")]
+                elif ok and isinstance(k, int) and k < 0 and -k <= len(h.tail):
+                    return [(st, h.tail[k])]
                 return self.seq_index(st, self.list_seq(st, obj), key)
             if isinstance(h, HDict):
                 return self.dict_get(st, obj, key)
@@ -810,7 +814,7 @@ class LibMixin:
         if isinstance(h, HList):
             if h.items is not None:
                 return self.py_in(st, item, VTuple(tuple(h.items)))
-            return [(st, z3.Contains(h.seq, z3.Unit(box(item))))]
+            return [(st, z3.Contains(self.list_seq(st, ref), z3.Unit(box(item))))]
         if isinstance(h, HObj):
             m = load.find_method(h.cls[0], h.cls[1], "__contains__")
             if m is not None:
